@@ -55,8 +55,10 @@ func (its *Manager) GetLatestDatatype() (iface.Datatype, uint64, errors.OrdaErro
 		if err = datatype.SetMetaAndSnapshot([]byte(snapshotDoc.Meta), snapshotDoc.Snapshot); err != nil {
 			return nil, 0, err
 		}
-		datatype.ResetWired()
 	}
+	// The instance stands for a stored datatype: its own creation (snapshot) operation must never be pushed,
+	// whether a snapshot has been stored for the datatype or not.
+	datatype.ResetWired()
 	opList, sseqList, err := its.managers.Mongo.GetOperations(its.ctx, its.datatypeDoc.DUID, lastSseq+1, constants.InfinitySseq)
 	if err != nil {
 		return nil, 0, err
